@@ -12,6 +12,7 @@ import (
 
 	"github.com/glyphlang/glyph/pkg/ast"
 	"github.com/glyphlang/glyph/pkg/compiler"
+	"github.com/glyphlang/glyph/pkg/interpreter"
 	"github.com/glyphlang/glyph/pkg/server"
 	"github.com/glyphlang/glyph/pkg/web"
 	"github.com/glyphlang/glyph/pkg/websocket"
@@ -165,7 +166,7 @@ func setupRoutes(module *ast.Module, filePath string, forceInterpreter ...bool) 
 				// user-defined function or a built-in only the interpreter has
 				// compiles, but answered 500 ("undefined function") where
 				// --interpret answers. Such a module runs on the interpreter.
-				if missing := c.UnavailableCalls(); len(missing) > 0 {
+				if missing := interpreterOnlyCalls(module, c.UnavailableCalls()); len(missing) > 0 {
 					printInfo(fmt.Sprintf("%s calls %s, which compiled routes cannot run, using interpreter mode", route.Path, strings.Join(missing, ", ")))
 					useCompiler = false
 					break
@@ -240,6 +241,30 @@ func setupRoutes(module *ast.Module, filePath string, forceInterpreter ...bool) 
 	setCompiledTypeDefs(module)
 
 	return useCompiler, compiledRoutes, wsServer, router, nil
+}
+
+// interpreterOnlyCalls picks, among function names the VM cannot call, those
+// the interpreter can: functions the module defines and the interpreter's own
+// built-ins. (A name neither engine knows fails in both modes alike and is no
+// reason to change mode.)
+func interpreterOnlyCalls(module *ast.Module, unavailable []string) []string {
+	var names []string
+	for _, name := range unavailable {
+		if interpreter.HasBuiltin(name) || moduleDefinesFunction(module, name) {
+			names = append(names, name)
+		}
+	}
+	return names
+}
+
+// moduleDefinesFunction reports whether the module declares a function of that name.
+func moduleDefinesFunction(module *ast.Module, name string) bool {
+	for _, item := range module.Items {
+		if fn, ok := item.(*ast.Function); ok && fn != nil && fn.Name == name {
+			return true
+		}
+	}
+	return false
 }
 
 // moduleHasComputedDefault reports whether some route declares a query
